@@ -275,7 +275,7 @@ class ExprMixin:
         """True: is None; False: is not None; None: unknown."""
         if v.kind == "const":
             return v.args[0] is None
-        if v.kind in ("inst", "obj", "cls", "func", "classref", "bound", "lock", "data", "tuple", "list", "dict", "fmt", "comp"):
+        if v.kind in ("inst", "obj", "cls", "func", "classref", "bound", "lock", "data", "tuple", "list", "dict", "fmt", "comp", "lambda", "exitstack"):
             return False
         if v.kind == "field":
             f = self.field_fact(v)
@@ -723,7 +723,106 @@ class ExprMixin:
         return Val("fmt", *parts), preds
 
     def ev_Lambda(self, e, preds):
-        return Val("unknown", "lambda"), preds
+        # a closure: body evaluated when called, in the environment captured here
+        tab = self.__dict__.setdefault("_lambdas", {})
+        lid = len(tab)
+        tab[lid] = (e, dict(self.fr.env), self.fr)
+        return Val("lambda", lid), preds
+
+    def call_lambda(self, lid, args, kwargs, preds):
+        from .interp import Frame
+
+        e, env, fr0 = self._lambdas[lid]
+        fr = Frame(fr0.func, fr0.recv, fr0.defining_cls)
+        fr.env = dict(env)
+        fr.closure = getattr(fr0, "closure", {})
+        fr.ret_join = fr0.ret_join
+        fr.sig = getattr(fr0, "sig", None)
+        params = [a.arg for a in e.args.args]
+        for p_, a_ in zip(params, args):
+            fr.env[p_] = a_
+        for k_, v_ in (kwargs or {}).items():
+            if k_ in params:
+                fr.env[k_] = v_
+        saved = self.frames
+        self.frames = saved + [fr]
+        try:
+            return self.ev(e.body, preds)
+        finally:
+            self.frames = saved
+
+    # ------------------------------------------------------------ contextlib.ExitStack
+    def exitstack_new(self):
+        tab = self.__dict__.setdefault("_exitstacks", {})
+        sid = len(tab)
+        tab[sid] = {"cur": [], "all": []}
+        return Val("exitstack", sid)
+
+    def exitstack_unwind(self, sid, exc_args, preds):
+        st_ = self._exitstacks[sid]
+        # leaving by an exception: everything ever registered is unwound (an exception before pop_all() finds the
+        # entries still on the stack); leaving normally: what is on the stack now
+        exceptional = any(a_.kind == "unknown" and a_.args and a_.args[0] == "exc" for a_ in exc_args)
+        todo = list(reversed(st_["all"] if exceptional else st_["cur"]))
+        for ent in todo:
+            if not preds:
+                break
+            if ent[0] == "cm":
+                _, preds = self.call_method(ent[1], "__exit__", list(exc_args), {}, preds)
+            else:
+                _, f_, a_, k_ = ent
+                _, preds = self.call_value(f_, list(a_), dict(k_), preds)
+        return preds
+
+    def _exitstack_conditional(self):
+        """The registration being evaluated is nested in a compound statement inside the `with` block."""
+        st = self.cur_stmt
+        p_ = getattr(st, "_parent", None)
+        while p_ is not None and not isinstance(p_, (ast.FunctionDef, ast.AsyncFunctionDef)):
+            if isinstance(p_, ast.With):
+                return False
+            if isinstance(p_, (ast.If, ast.For, ast.While, ast.Try)):
+                return True
+            p_ = getattr(p_, "_parent", None)
+        return False
+
+    def exitstack_call(self, stack, name, args, kwargs, preds):
+        sid = stack.args[0]
+        st_ = self._exitstacks[sid]
+        if name == "__enter__":
+            return stack, preds
+        if name == "enter_context" and args:
+            if args[0].kind == "obj" and self.is_counter(args[0]) and self._exitstack_conditional():
+                raise AnalysisError("not modelled: a counter context is entered into an ExitStack conditionally (the model of ExitStack is not path sensitive); not decided")
+            rv, preds = self.call_method(args[0], "__enter__", [], {}, preds)
+            if preds:
+                st_["cur"].append(("cm", args[0]))
+                st_["all"].append(("cm", args[0]))
+            return rv, preds
+        if name == "push" and args:
+            st_["cur"].append(("cm", args[0]))
+            st_["all"].append(("cm", args[0]))
+            return args[0], preds
+        if name == "callback" and args:
+            ent = ("cb", args[0], tuple(args[1:]), tuple(sorted((k, v) for k, v in kwargs.items() if k != "**")))
+            st_["cur"].append(ent)
+            st_["all"].append(ent)
+            return args[0], preds
+        if name == "pop_all":
+            new = self.exitstack_new()
+            n_ = self._exitstacks[new.args[0]]
+            n_["cur"].extend(st_["cur"])
+            n_["all"].extend(st_["cur"])
+            del st_["cur"][:]
+            return new, preds
+        if name == "close":
+            out = self.exitstack_unwind(sid, [NONE, NONE, NONE], preds)
+            del st_["cur"][:]
+            return NONE, out
+        if name == "__exit__":
+            ex = list(args[:3]) + [NONE] * (3 - len(args[:3]))
+            return Val("const", False), self.exitstack_unwind(sid, ex, preds)
+        return Val("unknown", "exitstack." + name), preds
 
     def ev_Yield(self, e, preds):
         v = NONE
@@ -896,7 +995,8 @@ class ExprMixin:
         for i in range(len(heads) - 1, 0, -1):
             self.g.link(heads[i], heads[i - 1])
         self.fr.env = env0
-        return Val("comp", kind, elt, tuple(iters)), {heads[0]}
+        has_filter = any(g_.ifs for g_ in e.generators)
+        return Val("comp", kind, elt, tuple(iters), has_filter), {heads[0]}
 
     def ev_ListComp(self, e, preds):
         return self.comprehension(e, "list", preds)
@@ -1177,6 +1277,10 @@ class ExprMixin:
 
     def call_value(self, callee, args, kwargs, preds):
         k = callee.kind
+        if k == "lambda":
+            return self.call_lambda(callee.args[0], args, kwargs, preds)
+        if k == "ext" and callee.args[0] in ("contextlib.ExitStack", "ExitStack"):
+            return self.exitstack_new(), preds
         if k == "func":
             return self.call_function(callee.args[0], None, args, kwargs, preds)
         if k == "bound":
@@ -1356,6 +1460,8 @@ class ExprMixin:
         if not preds:
             return Val("unknown", "dead"), set()
         k = recv.kind
+        if k == "exitstack":
+            return self.exitstack_call(recv, name, args, kwargs, preds)
         if k == "phi":
             vals, outs = [], set()
             for alt in recv.args:
